@@ -430,7 +430,10 @@ def run_billing(spec, rng, keys):
     if cnt is not None and not off and not spec["k_temp"]:
         I.reach("billing.day_count_compared")
         if int(cnt["n_days_total"]) != days:
-            add("day-count-differs-from-billed-span:billing/%s" % entry, "billing/%s (%s entry): the class counted %r days, the reads span %d local calendar days" % (role, entry, cnt["n_days_total"], days),
+            # recorded mechanism (narrow): from_series measures the last meter period in elapsed time; when the last billed day is the 23-hour day
+            # of a spring-forward change the weather feed is cut one day early, that day has no temperature and the span is one day short
+            last_day_23h = entry != "frame" and (didx[-1] - didx[-2]) == pd.Timedelta(hours=23)
+            add("day-count-differs-from-billed-span:billing/%s%s" % (entry, ":last-billed-day-is-a-spring-forward-day" if last_day_23h and int(cnt["n_days_total"]) == days - 1 else ""), "billing/%s (%s entry): the class counted %r days, the reads span %d local calendar days" % (role, entry, cnt["n_days_total"], days),
                 spec={k: v for k, v in spec.items() if k not in ("seed", "tier", "i")})
     judge(data, exp, margins, tz in NO_DST and entry != "series-hourly", spec, cond)
     keys.add("billing|%s|%s|%s|%d|%s|%d|%s" % (role, entry, tz, days, off, spec["k_temp"], ",".join(sorted(exp))))
